@@ -637,6 +637,30 @@ def make_cases(ctx, n):
     return cases
 
 
+def exhaustive_cases(rng):
+    """every rose-tree shape with <= 5 leaves x every copy route x two decoration profiles
+    (plain; annotated with a value annotation, a bound annotation, comments and encoded bipartitions)"""
+    for n in (1, 2, 3, 4, 5):
+        for shape in T.all_shapes(n):
+            spec = T.shape_to_tree(shape, lengths=lambda r: r.choice([None, 512, 1024]), rng=rng)
+            ncount = len(T.preorder(spec))
+            for route in B.ROUTES:
+                for prof in (0, 1):
+                    deco = []
+                    if prof:
+                        deco = [["ann", ["node", 0, ncount - 1], "a", ["list", [["int", 1]]]],
+                                ["bound", ["edge", 0, 0], "popsize", ["int", 5]],
+                                ["bound", ["tree", 0], "zz", ["float", 512]],
+                                ["comment", ["tree", 0], "c"], ["encode", 0, True]]
+                    yield {"type": "tree", "deco": deco, "label": None, "ns": {"n": n, "label": None},
+                           "trees": [{"spec": spec, "rooted": rng.choice([None, True, False]), "label": None, "weight": None}],
+                           "route": route, "via_ctor": False,
+                           "mut": {"side": rng.choice(["src", "copy"]),
+                                   "op": rng.choice([["set_len", 0, rng.randrange(ncount), 2048], ["prune", 0, rng.randrange(ncount)],
+                                                     ["setattr", ["edge", 0, 0], "popsize", ["int", 77]], ["encode", 0],
+                                                     ["ann_add", ["tree", 0], "later", ["int", 3]]])}}
+
+
 def run(tier, seed, replay=None):
     ctx = core.Ctx("C12", tier, seed)
     ctx.assumptions = [
@@ -654,17 +678,22 @@ def run(tier, seed, replay=None):
     ok = core.proof_stage(ctx, ["Props/C12.vo"])
     if not ok:
         core.broken_proof(ctx, search)
-    n = 300 if tier == "quick" else 4000
+    n = 300 if tier == "quick" else 10000
     cases = make_cases(ctx, n)
+    if tier == "thorough":
+        ex = list(exhaustive_cases(ctx.rng))
+        ctx.count("exhaustive-small-trees", len(ex))
+        cases.extend(ex)
     cache = {}
 
     def obs_cached(case):
         return observe(case)
 
-    core.corr_stage(ctx, cases, obs_cached, to_coq, HEADER, "case_ok",
+    core.corr_stage(ctx, cases, obs_cached, to_coq, HEADER, "case_ok2",
                     oracle=lambda c, o: oracle(c, o), show_fn="case_run", nontrivial=nontrivial,
                     search=search, shard=40 if tier == "quick" else 125, sample_fn=sample_fn)
     return ctx.finish(level="proof",
                       rule="random decorated trees (<=60 nodes), tree lists, DNA/standard/continuous matrices and namespaces; "
-                           "every copy route; one random later mutation on either side; non-trivial = source graph of >=12 "
-                           "objects, copy succeeded and the mutation was applied; distinct by full case content")
+                           "every copy route; one random later mutation on either side; thorough adds every tree shape with "
+                           "<=5 leaves x every route x {plain, annotated}; non-trivial = source graph of >=12 objects, copy "
+                           "succeeded and the mutation was applied; distinct by full case content")
